@@ -222,6 +222,7 @@ def run(rep, tier, seed, selftest):
     cases = pc.load_cases(p["cases"])
     mc_name = pc.TIERS[tier]["mc"]
     mc = meta["tlc"][mc_name]
+    place_name = pc.TIERS[tier]["place"]
     if not mc.get("ok", True):
         rep.violation("model", "invariant %s of Pipeline.tla" % mc.get("violated"),
                       {"message": "TLC: the protocol model violates %s (design-level counterexample, see work/)" % mc.get("violated")})
@@ -345,13 +346,14 @@ def run(rep, tier, seed, selftest):
         "evaluations": meta["cases"],
         "distinct_nontrivial": len(nontrivial),
         "rule": "inputs: every token sequence up to the bound over the %d-symbol alphabet at top level and in a function body "
-                "(TLC, PipelineTokens.tla), every module set of MC_Pipeline (TLC), seeded mutants of all corpus files "
-                "(delete/duplicate/swap/replace/insert/splice/truncate one token), token soup, 16 nesting shapes up to depth 256, "
+                "(TLC, PipelineTokens.tla), every module set of MC_Pipeline (TLC), every statement placement of MC_Placement up to 6 tokens (TLC) "
+                "compiled through the whole pipeline, seeded mutants of all corpus files (delete/duplicate/swap/replace/insert/splice/"
+                "truncate one token; swap/delete/duplicate/move one LINE), structure/word programs with shuffled literals, token soup, 16 nesting shapes up to depth 256, "
                 "near-valid programs with one lexical fault, generated 2-3-module sets; each run in an isolated child process, "
                 "every event sequence validated by TLC against Pipeline.tla. Non-trivial = distinct source texts with >= 2 tokens." % 86,
         "samples": sample_cases,
-        "states": mc["distinct"] + sum(v["distinct"] for k, v in tl.items() if k != mc_name),
-        "transitions": mc["generated"] + sum(v["generated"] for k, v in tl.items() if k != mc_name),
+        "states": mc["distinct"] + sum(v["distinct"] for k, v in tl.items() if k not in (mc_name, place_name)),
+        "transitions": mc["generated"] + sum(v["generated"] for k, v in tl.items() if k not in (mc_name, place_name)),
         "traces_validated_against_impl": nruns - len(rejected),
         "traces_rejected": len(rejected),
         "trace_states": trace_states,
